@@ -184,6 +184,31 @@ def fmt(d):
         return repr(d)
 
 
+def check_background(cfg, h, t, x, events, rows_before):
+    """Marginal imputers: every imputed value must be the value the feature has in a row that was in the storage when the
+    call started (a stale cache of evicted rows is not 'the imputer')."""
+    for e in events:
+        if e[0] != 'impute':
+            continue
+        subset, inputs = e[1], e[5]
+        for inp in inputs:
+            if cfg['imputer'] == 'joint' and subset:
+                if not any(all(inp[f] == r.get(f) for f in subset) for r in rows_before):
+                    raise Violation(f"{CURRENT_PID()}/background-not-in-storage",
+                                    f"{type(h.expl).__name__}[{cfg_desc(cfg)}] call {t + 1}: the imputed values of {sorted(subset, key=repr)} "
+                                    f"in model input {inp} are not those of a row currently in the storage {rows_before}", {})
+            else:
+                for f in subset:
+                    if not any(inp[f] == r.get(f) for r in rows_before):
+                        raise Violation(f"{CURRENT_PID()}/background-not-in-storage",
+                                        f"{type(h.expl).__name__}[{cfg_desc(cfg)}] call {t + 1}: imputed value of {f!r} in model "
+                                        f"input {inp} does not occur in the storage {rows_before}", {})
+
+
+def CURRENT_PID():
+    return choice.CURRENT_PID[0]
+
+
 def stream_driver(cfg, T, make_oracle, alpha_size=3, options=False):
     """driver(run): every word of length T over the observation alphabet (driver choices, cost 0);
     optional per-call options as deviations (cost 1)."""
@@ -215,7 +240,11 @@ def stream_driver(cfg, T, make_oracle, alpha_size=3, options=False):
                 elif o == 2:
                     kw['update_storage'] = False
             x_in = dict(x)
+            from ixverif.explharness import storage_rows
+            rows_before = storage_rows(h) if cfg['imputer'] in ('joint', 'product') else None
             ret, events = h.explain(x_in, y, **kw)
+            if rows_before:
+                check_background(cfg, h, t, x, events, rows_before)
             oracle(t, x, y, ret, events, n_exp, kw)
         return oracle
     return driver
